@@ -281,7 +281,12 @@ func (r *runner) errf(format string, args ...interface{}) error {
 	var op string
 	if r.opi >= 0 && r.opi < len(r.c.Ops) {
 		o := r.c.Ops[r.opi]
-		op = fmt.Sprintf("op#%d %s file=%d handle=%d mode=%#x off=%d count=%d: ", r.opi, o.Kind, o.File, o.Handle, o.Mode, o.Off, o.Count)
+		switch o.Kind {
+		case "open", "create":
+			op = fmt.Sprintf("op#%d %s file=%d mode=%#x: ", r.opi, o.Kind, o.File, o.Mode)
+		default:
+			op = fmt.Sprintf("op#%d %s handle=%d off=%d count=%d: ", r.opi, o.Kind, o.Handle, o.Off, o.Count)
+		}
 	}
 	return fmt.Errorf("msize=%d iounit=%d dotu=%v %s%s", r.nm, r.u, r.c.Dotu, op, fmt.Sprintf(format, args...))
 }
@@ -328,6 +333,26 @@ func (r *runner) osReadErrs(i int, off uint64) bool {
 
 func isEOF(err error) bool { return err == io.EOF || errors.Is(err, io.EOF) }
 
+// sharedLog is handed to every Ufs started by this package: Srv.Start would
+// otherwise create a Logger (one goroutine that never exits plus a 1024-entry
+// ring) per server, i.e. per case.
+var sharedLog = go9p.NewLogger(64)
+
+// startUfs is ufsrv.Start with the shared logger.
+func startUfs(root string, dotu bool, msize uint32) *go9p.Ufs {
+	ufsrv.Silence()
+	u := new(go9p.Ufs)
+	u.Dotu = dotu
+	u.Id = "ufs"
+	u.Root = root
+	u.Msize = msize
+	u.Log = sharedLog
+	if !u.Start(u) {
+		panic("c14: Ufs.Start failed")
+	}
+	return u
+}
+
 // RunCase executes the case; a non-nil error is a violation of the property
 // (or "harness:" trouble, which the callers report as inconclusive).
 func RunCase(c *Case) (err error) {
@@ -358,7 +383,7 @@ func RunCase(c *Case) (err error) {
 	}
 	r.u = uint64(r.nm - iohdrsz)
 
-	srv := ufsrv.Start(root, c.Dotu, c.ServerMsize)
+	srv := startUfs(root, c.Dotu, c.ServerMsize)
 	clnt, end, e := ufsrv.Mount(srv, "c14", "", c.ClientMsize-iohdrsz)
 	if e != nil {
 		end.Close()
@@ -588,6 +613,9 @@ func (r *runner) step(o *Op) error {
 		}
 		if e != nil && n != 0 {
 			return r.errf("%s returned %d bytes together with %v", name, n, e)
+		}
+		if e != nil && off < l {
+			hx.Label("zero-length " + o.Kind + " before EOF reported io.EOF (accepted)")
 		}
 		if o.Kind == "read" {
 			h.off += uint64(n)
